@@ -34,6 +34,9 @@ PAIRINGS = [
     ("8.2.0", "testlib_3.0.0"),
     ("8.3.0", "testlib_3.0.0"),
     ("score_1.1.0", "testlib_2.0.0"),
+    # members on different sides of 8.3.0 (the character rules changed there)
+    ("8.3.0", "score_1.1.0"),
+    ("8.2.0", "score_2.0.0"),
 ]
 
 
@@ -85,6 +88,12 @@ class Member:
             trees.append([Leaf(raw=Leaf(t, suf).text("short", "lower"))])      # another letter case (C03/C04 spellings)
             if len(t.terms()) > 1:
                 trees.append([Leaf(raw=Leaf(t, suf).text("long"))])
+        # values / extensions with non-ASCII letters: which characters a value may hold depends on the schema version
+        if st.text_tag is not None:
+            trees.append([Leaf(st.text_tag, "/Caf\u00e9")])
+            trees.append([Leaf(st.plain3[0]), [Leaf(st.text_tag, "/\u03b1-wave")]])
+        if st.ext_tag is not None:
+            trees.append([Leaf(st.ext_tag, "/Ext-\u00e9")])
         pool = [Leaf(x) for x in st.plain3[:2]]
         if st.ext_tag is not None:
             pool.append(Leaf(st.ext_tag, "/Zzqext-1"))
@@ -120,6 +129,18 @@ def build(ctx_thorough):
     return members, configs, alone
 
 
+def mixed_across_83(members, parts):
+    """True when the members of the group lie on different sides of standard version 8.3.0 (from their XML headers)."""
+    def side(version):
+        m = members[version].model
+        std = m.with_standard or (version if "_" not in version else None)
+        if std is None:
+            return None
+        return tuple(int(x) for x in std.split(".")) >= (8, 3, 0)
+    sides = {side(v) for _, v in parts}
+    return len(sides - {None}) > 1 or (None in sides and len(sides) > 1)
+
+
 def worker(rec, shard, nshards, members, configs, alone, thorough, seed):
     items = []
     for ci, (spec, group, parts) in enumerate(configs):
@@ -153,6 +174,12 @@ def worker(rec, shard, nshards, members, configs, alone, thorough, seed):
             if ge == we:
                 diff = sorted(set(got) ^ set(want))
                 rec.violation(f"C13:warning-only-difference:{diff[0][0] if diff else 'count'}", group=spec, prefix=ns,
+                              schema=version, text=pref, alone=want, in_group=got)
+            elif (not pref.isascii()) and mixed_across_83(members, parts) and \
+                    {c for c, s_ in set(got) ^ set(want)} <= {"CHARACTER_INVALID", "TAG_EXTENDED", "TAG_EXTENSION_INVALID",
+                                                              "VALUE_INVALID"}:
+                # one fingerprint for the one mechanism: the group applies a single character rule set to all its members
+                rec.violation("C13:mixed-version-group:non-ascii-text-judged-by-one-character-rule-set", group=spec, prefix=ns,
                               schema=version, text=pref, alone=want, in_group=got)
             else:
                 rec.violation(f"C13:prefixed-judged-differently:{'prefixed' if ns else 'unprefixed'}", group=spec, prefix=ns,
